@@ -613,6 +613,8 @@ fn ext_loop(drv: u64, source: u64, rounds: u64, q: u64, seed: u64) -> Result<Vec
             }
             3 => {
                 let (a, b) = UnixStream::pair().map_err(|_| BadCase)?;
+                a.set_nonblocking(true).ok();
+                b.set_nonblocking(true).ok();
                 let f = flag.clone();
                 let sfd = SharedFd::new(a);
                 extra = Some(rt.enter(|| {
